@@ -372,6 +372,30 @@ def eval_concurrent(wname, texts, tail, second=None):
     return [], "ok"
 
 
+def eval_split(wname, line, k, styled):
+    """one line given as two adjacent text nodes (split after k characters), optionally with the second one inside a span
+    that only refers to a class (nothing most writers can render): the cue structure survives and the characters come out
+    in order (blanks are not compared: some writers join adjacent nodes with one)"""
+    a, b = line[:k], line[k:]
+    items = [("t", a)] + ([("s", True), ("t", b), ("s", False)] if styled else [("t", b)])
+    klass = "line-split-into-two-text-nodes" + ("/second-in-class-only-span" if styled else "")
+    squeeze = lambda x: "".join(x.split())  # noqa: E731
+    try:
+        doc = writer_obj(wname).write(build_set(items))
+        got = parse_output(wname, doc)
+    except parsers.ParseError as e:
+        return [(f"C03/{wname}/output-unparseable/{klass}", {"err": str(e)[:300]})], "unparseable"
+    except Exception as e:  # noqa
+        return [(f"C03/{wname}/raises:{type(e).__name__}/{klass}", {"err": str(e)[:200]})], "raises"
+    got_s = [squeeze("".join(c)) for c in got]
+    want = [squeeze(parsers.norm_line(a) + parsers.norm_line(b)), "Sentinel"]
+    if got_s != want:
+        kind = "cue-count" if len(got_s) != len(want) else "lines-differ"
+        feats = features([("t", line)])
+        return [(f"C03/{wname}/{kind}/{klass}/{feats}", {"got": got, "want": want, "nodes": items, "doc": doc[-500:]})], kind
+    return [], "ok"
+
+
 def reuse_items():
     items = []
     ls = line_set(2)
@@ -392,6 +416,8 @@ def shards(tier, seed):
     sh = [{"k": "reuse", "w": None}]
     sh.append({"k": "concurrent", "w": None})
     sh.append({"k": "padded", "w": None})
+    for w in WRITERS:
+        sh.append({"k": "split", "w": w})
     for w in WRITERS:
         nparts = (2 if tier == "quick" else 24) if w not in ("SRTWriter", "WebVTTWriter", "MicroDVDWriter") else (1 if tier == "quick" else 4)
         for part in range(nparts):
@@ -426,6 +452,22 @@ def run_shard(d):
                         acc.case(("concurrent", w, texts, tail, second), True, out, {"writer": w, "captions_with_identical_times": list(texts), "earlier_captions_end_with": tail, "second_language": second})
                         for sig, det in v:
                             acc.violation(sig, {"w": w, "concurrent": list(texts), "tail": tail, "second": second}, det)
+        return acc.result()
+    if d["k"] == "split":
+        w = d["w"]
+        toks = [t for t, _ in TOKENS]
+        lines = toks + [a + b for a in toks for b in toks]
+        for ln in lines:
+            if w == "MicroDVDWriter" and "|" in ln:
+                continue
+            for k in range(1, len(ln)):
+                if not ln[:k].strip() or not ln[k:].strip():
+                    continue
+                for styled in (False, True):
+                    v, out = eval_split(w, ln, k, styled)
+                    acc.case(("split", w, ln, k, styled), True, out, {"writer": w, "line": ln, "split_after": k, "second_node_in_class_only_span": styled})
+                    for sig, det in v:
+                        acc.violation(sig, {"w": w, "split": [ln, k, styled]}, det)
         return acc.result()
     if d["k"] == "padded":
         for w in WRITERS:
@@ -483,6 +525,9 @@ def run_shard(d):
 def replay(case):
     if case.get("reuse"):
         return shared.replay(reuse_items(), reuse_eval, case["index"])
+    if case.get("split"):
+        v, _ = eval_split(case["w"], case["split"][0], case["split"][1], case["split"][2])
+        return [{"sig": s, "detail": d} for s, d in v]
     if case.get("concurrent"):
         v, _ = eval_concurrent(case["w"], case["concurrent"], case["tail"], case.get("second"))
         return [{"sig": s, "detail": d} for s, d in v]
